@@ -63,3 +63,57 @@ pub static SCT: Target = target!(parse_ct_signed_certificate_timestamp, wire::re
 pub static SCT_LIST: Target = target!(parse_ct_signed_certificate_timestamp_list, |b| wire::ref_sct_list(b).0);
 
 pub static NO_REF: fn(&[u8]) -> Ref = no_ref;
+
+// ---- two-step record parsing: parse_tls_raw_record, then parse_tls_record_with_header
+fn run_two_step(b: &[u8]) -> vcommon::v::Got {
+    use crate::mirror::{kind_name, Base, ToV};
+    use tls_parser::nom::{Err, Needed};
+    use vcommon::v::Got;
+    let r = vcommon::iso::guarded(|| {
+        let (_, raw) = match parse_tls_raw_record(b) {
+            Ok(x) => x,
+            Err(Err::Incomplete(Needed::Size(n))) => return Got::Incomplete(Some(n.get())),
+            Err(Err::Incomplete(Needed::Unknown)) => return Got::Incomplete(None),
+            Err(Err::Error(e)) => return Got::Error(kind_name(e.code)),
+            Err(Err::Failure(e)) => return Got::Failure(kind_name(e.code)),
+        };
+        let base = Base::of(b);
+        match parse_tls_record_with_header(raw.data, &raw.hdr) {
+            Ok((rem, v)) => {
+                // the remainder must be the tail of the payload
+                let pend = raw.data.as_ptr() as usize + raw.data.len();
+                if rem.len() > raw.data.len() || (!rem.is_empty() && rem.as_ptr() as usize + rem.len() != pend) {
+                    return Got::BadRemainder(format!("two-step remainder ({} bytes) is not the tail of the payload", rem.len()));
+                }
+                Got::Ok(v.to_v(&base), 5 + raw.data.len() - rem.len())
+            }
+            Err(Err::Incomplete(Needed::Size(n))) => Got::Incomplete(Some(n.get())),
+            Err(Err::Incomplete(Needed::Unknown)) => Got::Incomplete(None),
+            Err(Err::Error(e)) => Got::Error(kind_name(e.code)),
+            Err(Err::Failure(e)) => Got::Failure(kind_name(e.code)),
+        }
+    });
+    r.unwrap_or_else(vcommon::v::Got::Panic)
+}
+
+fn ref_two_step(b: &[u8]) -> Ref {
+    let mut r = wire::Rd::new(b);
+    let (Some(ty), Some(_ver), Some(len)) = (r.u8(), r.u16(), r.u16()) else {
+        return Ref::Reject("record header cut");
+    };
+    if len as usize > wire::MAX_RECORD_LEN {
+        return Ref::Reject("TooLarge");
+    }
+    let Some(p) = r.sub(len as usize) else { return Ref::Reject("record payload cut") };
+    match wire::record_payload(ty as u8, p.b, p.off, false) {
+        wire::Payload::Must(msgs, used) => Ref::Must(vcommon::v::V::L(msgs), 5 + used),
+        wire::Payload::Reject(w) => Ref::Reject(w),
+        wire::Payload::Unspec(w) => Ref::Unspec(w),
+    }
+}
+
+pub static TWO_STEP: Target = Target {
+    name: "parse_tls_raw_record+parse_tls_record_with_header",
+    run: run_two_step,
+    reference: ref_two_step,
+};
